@@ -100,6 +100,57 @@ def gen_single(rng: random.Random, tier: str) -> dict:
 
 
 def gen_single_adv(rng: random.Random, tier: str) -> dict:
+    """Scripted adversaries for single-decree Paxos; two schedule classes drawn with equal probability."""
+    if rng.random() < 0.5:
+        return gen_fast_retry(rng, tier)
+    return gen_stale_accept(rng, tier)
+
+
+def gen_fast_retry(rng: random.Random, tier: str) -> dict:
+    """Class "retry overtakes the Accepted replies of the ballot it abandons".
+
+    5 nodes.  `early` proposes while it is partitioned away (it keeps a self-promise for its ballot), the partition heals,
+    `main` (lower name, hence lower ballot at equal number) proposes: a fast quorum promises, phase 2 starts, `early`'s
+    Nack arrives over a somewhat slower link while the Accepts are in flight, and the retry timer (retry_delay well below
+    the round trip, swept from 0.1 to 2 one-way delays) abandons the ballot before its Accepted replies come back.
+    Retry storms are possible on the unchanged tree when retry_delay is far below the link latency; the run is short and
+    capped (cap => inconclusive, never a verdict)."""
+    names = [f"n{i}" for i in range(5)]
+    main, early = sorted(rng.sample(names, 2))
+    d = rng.choice([0.02, 0.05, 0.1])
+    slow = round(rng.uniform(1.05, 1.9), 3)
+    retry_delay = round(d * rng.choice([0.1, 0.25, 0.5, 0.5, 0.75, 1.0, 2.0]), 6)
+    t_main = 1.0
+    proposals = [
+        {"node": early, "value": "vB", "at": 0.1},
+        {"node": main, "value": rng.choice(["vA", "vA", "vA", 0, ""]), "at": t_main},
+    ]
+    if rng.random() < 0.25:
+        third = rng.choice([x for x in names if x not in (main, early)])
+        proposals.append({"node": third, "value": "vC", "at": round(t_main + rng.uniform(0, 12 * d), 6)})
+    return {
+        "mode": "chaos",
+        "variant": "fast-retry",
+        "n": 5,
+        "retry_delay": retry_delay,
+        "script": {
+            "seed": rng.randrange(1 << 30),
+            "family": "uniform",
+            "base": [round(0.95 * d, 6), d],
+            "loss": 0.0,
+            "asym": {f"{main}>{early}": slow, f"{early}>{main}": slow},
+            "rules": [],
+        },
+        "roles": {"main": main, "early": early},
+        "proposals": proposals,
+        "partitions": [{"at": 0.0, "heal_at": 0.5, "a": [early], "b": [x for x in names if x != early], "asym": False}],
+        "gseed": rng.randrange(1 << 30),
+        "end": round(t_main + 40 * d, 6),
+        "delivery_cap": 60000,
+    }
+
+
+def gen_stale_accept(rng: random.Random, tier: str) -> dict:
     """Scripted adversary (class "acceptor state must not regress after a value was chosen"):
     5 nodes, three proposals.  a's Accept of a low ballot crawls towards acceptor c on a very slow link and is lost
     towards everybody else; b's higher ballot is promised by a quorum that does NOT contain c but accepted by a quorum
@@ -179,6 +230,7 @@ class SingleMonitor:
         self.self_accept_possible: dict = {}  # (num, node) -> bool, at a phase-2 start of that ballot
         self.accepted_from: dict = {}  # (decider, ballot number) -> [sources of delivered PaxosAccepted]
         self.last_accepted_sent: dict = {}  # acceptor -> highest ballot of its Accepted replies so far
+        self.late_accepted: dict = {}  # node -> Accepted deliveries whose ballot the node had already abandoned by a retry
         self.stale_accepts = 0  # Accept deliveries whose ballot is below the receiver's highest Accepted reply so far
         self.accepted_regressions: list = []  # (t, acceptor, earlier ballot, later lower ballot): precursor, never a verdict
         self.accept_dests: dict = {}  # (num, node) -> [destinations of its Accept messages]
@@ -254,6 +306,8 @@ class SingleMonitor:
                 hi_ = self.last_accepted_sent.get(tgt.name)
                 if hi_ is not None and (md.get("ballot_number"), md.get("ballot_node")) < hi_:
                     self.stale_accepts += 1
+            if et == "PaxosAccepted" and md.get("ballot_number") in self.abandoned.get(tgt.name, ()):
+                self.late_accepted[tgt.name] = self.late_accepted.get(tgt.name, 0) + 1
             if et == "PaxosAccepted":
                 self.accepted_from.setdefault((tgt.name, md.get("ballot_number")), []).append(md.get("source"))
             if et == "PaxosRetry":
@@ -361,6 +415,15 @@ class SingleMonitor:
                 self.trigger[n.name] = (ev.event_type, md.get("ballot_number"), md.get("source"))
                 self.open_phase1.pop(n.name, None)
                 self.res.count("decisions_checked")
+                if ev.event_type in ("PaxosAccepted", "PaxosPromise"):
+                    # decided first-hand (own Accepted quorum): _decide resolves the proposal future in the same delivery
+                    mine_f = [rec for rec in self.futures if rec[0] is n]
+                    if mine_f and not any(rec[2].is_resolved for rec in mine_f):
+                        self.flag(
+                            "future-resolves",
+                            "first-hand-decider-without-resolved-future",
+                            f"{n.name} decided {v!r} through its own Accepted quorum at t={now} but none of its {len(mine_f)} propose() futures is resolved",
+                        )
                 try:
                     known = v in self.proposed
                 except TypeError:
@@ -432,7 +495,7 @@ def run_single(case: dict) -> Result:
         sim.schedule(at(p["at"], "drv-propose", do))
     schedule_partitions(sim, net, by_name, case.get("partitions", []))
     sim.control.on_event(mon.on_event)
-    status = run_sim(sim, res)
+    status = run_sim(sim, res, total_cap=case.get("delivery_cap", 400000))
     res.count("samples", mon.n_samples)
     res.count("retries", mon.n_retries)
     if mon.accepted_regressions:
@@ -463,6 +526,17 @@ def run_single(case: dict) -> Result:
         elif fut is None or not fut.is_resolved:
             res.add("bounded-liveness", COMP, "future-unresolved-after-decision", "single proposer's future never resolved", None)
         res.nontrivial = len(decided) == n
+    elif case.get("variant") == "fast-retry":
+        res.count("fast_retry_runs")
+        main = case["roles"]["main"]
+        ab = mon.abandoned.get(main, set())
+        late = sum(1 for (nm, bn), srcs in mon.accepted_from.items() if nm == main and bn in ab for _ in srcs)
+        # the schedule really happened: the main proposer retried and Accepted replies for a ballot it had abandoned
+        # were delivered to it (counted at the end; late = number of such deliveries)
+        late_after = mon.late_accepted.get(main, 0)
+        res.nontrivial = late_after >= 1
+        if late_after:
+            res.count("accepted_delivered_for_abandoned_ballot", late_after)
     elif case.get("variant") == "stale-accept-after-choice":
         first_hand = [nm for nm, tr in mon.trigger.items() if tr[0] == "PaxosAccepted"]
         # the skeleton really happened: a stale lower-ballot Accept reached an acceptor that had already replied Accepted
